@@ -47,7 +47,10 @@ def step (s : St) (line : String) : IO St := do
   match line.splitOn " " with
   | "hist" :: id :: ws =>
     let d := (kvGet ws "live_delta").toInt?.getD 1
-    let j := if judgeBalance d then "ok" else s!"FAIL:allocator-balance:{d}"
+    let lk := kvGet ws "leak"
+    let j := if judgeBalance d && lk == "" then "ok"
+      else if lk != "" then s!"FAIL:allocator-balance:query:{lk}"
+      else s!"FAIL:allocator-balance:{d}"
     IO.println s!"{id} kind=hist corr=na judge={j} hkind={kvGet ws "kind"} lang={kvGet ws "lang"} allocs={kvGet ws "allocs"}"
     return s
   | ["dump", id, he] => return { s with dumpId := id, hasExt := he == "hasext=1", inDump := true, lines := #[] }
